@@ -132,14 +132,18 @@ the `before` chain's log plus the response), the client is queued exactly the
 response the exception builds (`HttpRequestRejected.response`) — nothing if it
 has none — and the connection is closing or closed. -/
 theorem C09_before_chain_reject (cfg : Cfg) (ps : List Plugin) (ok : Bool) (r : Req) (e : Exc)
-    (h : (beforeChain ps r).2 = .raised e) :
-    let s := step cfg ps {} (.first r ok)
+    (h : (beforeChain ps r).2 = .raised e) (rest : Bytes) (more : List (Req × Bytes)) :
+    let s := step cfg ps {} (.first r ok rest more)
     connects s.2 = [] ∧ upBytes s.2 = [] ∧ clItems s.2 = e.response.toList ∧
     (s.1.closing = true ∨ s.1.down = true) ∧ s.1.upstream = false ∧
     (∀ j hk a, Eff.call j hk a ∈ s.2 → hk = .before ∧ j < ps.length) := by
-  have hs : step cfg ps {} (.first r ok) = firstStep cfg ps {} r ok := by simp [step]
   have ho : onRequestComplete cfg ps ok r = ((beforeChain ps r).1, ⟨false, .error e⟩) := by
     rw [onRequestComplete_eq, h]
+  have hdead : (firstStep cfg ps {} r ok).1.closing = true ∨ (firstStep cfg ps {} r ok).1.down = true := by
+    rw [firstStep_eq, ho]; exact raise_dead _ _ _
+  have hs : step cfg ps {} (.first r ok rest more) = firstStep cfg ps {} r ok := by
+    simp only [step]
+    rcases hdead with hd | hd <;> simp [hd]
   simp only [hs]
   rw [firstStep_eq, ho]
   simp only [raise_connects, raise_upBytes, raise_clItems, raise_upstream]
@@ -218,6 +222,34 @@ theorem C09_client_request_chain_later (cfg : Cfg) (ps : List Plugin) (st : St) 
     exact ⟨by simp [creqChain], by simp [creqChain], raise_dead _ _ _⟩
   · intro y h; rw [follow_eq, h]; simp [creqChain, upOfE, clItems]
 
+/-- **C09 several requests in one read.**  Every complete request of a read is
+handled in turn, exactly like a request that arrives alone (`follow`: its own
+`handle_client_request` chain from the first plugin on, then forwarded): the
+first one in the state the read found, each later one in the state its
+predecessor left — until a plugin raises (the connection is then closing or
+closed), and unless an upgrade request was forwarded, after which the rest of
+the read is passed on raw. -/
+theorem C09_packed_followups (cfg : Cfg) (ps : List Plugin) (st : St) (raw : Bytes) (r : Req) (rest : Bytes)
+    (more : List (Req × Bytes)) :
+    (st.upgraded = false →
+      pipeline cfg ps st raw ((r, rest) :: more) =
+        if rest.isEmpty || (follow cfg ps st r).1.closing || (follow cfg ps st r).1.down then follow cfg ps st r
+        else ((pipeline cfg ps (follow cfg ps st r).1 rest more).1,
+              (follow cfg ps st r).2 ++ (pipeline cfg ps (follow cfg ps st r).1 rest more).2)) ∧
+    (st.upgraded = true → pipeline cfg ps st raw ((r, rest) :: more) = (st, [.upQ raw])) := by
+  constructor <;> intro hu <;> simp [pipeline, hu]
+
+/-- … and bytes that arrive in the same read behind the *first* request are
+handed to `on_client_data` right after `on_request_complete` (unless that raised),
+in the state it left: the log is the first request's log followed by theirs. -/
+theorem C09_packed_first (cfg : Cfg) (ps : List Plugin) (r : Req) (ok : Bool) (rest : Bytes)
+    (more : List (Req × Bytes)) (hne : rest ≠ [])
+    (hc : (firstStep cfg ps {} r ok).1.closing = false) (hd : (firstStep cfg ps {} r ok).1.down = false) :
+    (step cfg ps {} (.first r ok rest more)).2 =
+      (firstStep cfg ps {} r ok).2 ++ (clientData cfg ps (firstStep cfg ps {} r ok).1 rest more).2 := by
+  have : rest.isEmpty = false := by cases rest <;> simp_all
+  simp [step, hc, hd, this]
+
 /-- **C09 `handle_upstream_chunk`.**  The client is queued exactly the chunk as
 returned by the last plugin when all return one, and nothing when a plugin
 returns None; nothing goes to the upstream either way. -/
@@ -258,13 +290,14 @@ nothing at all until the reaper) — with `shutdown()` called once: the log is
 the `on_access_log` chain from the first plugin on (None short-circuit), the
 default access-log line iff no plugin claimed it, then
 `on_upstream_connection_close` of *every* configured plugin, in configured order. -/
-theorem C09_lifecycle (cfg : Cfg) (ps : List Plugin) (r : Req) (ok : Bool) (evs : List Ev) :
-    ∃ body, conn cfg ps (.first r ok :: evs) 1 =
+theorem C09_lifecycle (cfg : Cfg) (ps : List Plugin) (r : Req) (ok : Bool) (rest : Bytes)
+    (more : List (Req × Bytes)) (evs : List Ev) :
+    ∃ body, conn cfg ps (.first r ok rest more :: evs) 1 =
       body ++ ((logChain ps).1 ++ defaultLogOf ps ++ upCloseAll 0 ps) ∧ noLife body = true := by
-  refine ⟨(run cfg ps {} (.first r ok :: evs)).2, ?_, noLife_run _ _ _ _⟩
-  have hd : (run cfg ps {} (.first r ok :: evs)).1.dispatched = true := by
+  refine ⟨(run cfg ps {} (.first r ok rest more :: evs)).2, ?_, noLife_run _ _ _ _⟩
+  have hd : (run cfg ps {} (.first r ok rest more :: evs)).1.dispatched = true := by
     simp only [run]
-    exact run_dispatched_mono cfg ps _ evs (step_first_dispatched cfg ps r ok)
+    exact run_dispatched_mono cfg ps _ evs (step_first_dispatched cfg ps r ok rest more)
   unfold conn
   simp [shutdownLog_eq, hd]
 
@@ -296,11 +329,12 @@ theorem C09_lifecycle_counts (cfg : Cfg) (ps : List Plugin) (evs : List Ev) (n i
         simp [this, hlt]
 
 /-- … in particular: exactly once each, for the dispatched connection of `C09_lifecycle` -/
-theorem C09_lifecycle_once (cfg : Cfg) (ps : List Plugin) (r : Req) (ok : Bool) (evs : List Ev) (i : Nat)
-    (hi : i < ps.length) : countCall i .upClose (conn cfg ps (.first r ok :: evs) 1) = 1 := by
-  have hd : (run cfg ps {} (.first r ok :: evs)).1.dispatched = true := by
+theorem C09_lifecycle_once (cfg : Cfg) (ps : List Plugin) (r : Req) (ok : Bool) (rest : Bytes)
+    (more : List (Req × Bytes)) (evs : List Ev) (i : Nat)
+    (hi : i < ps.length) : countCall i .upClose (conn cfg ps (.first r ok rest more :: evs) 1) = 1 := by
+  have hd : (run cfg ps {} (.first r ok rest more :: evs)).1.dispatched = true := by
     simp only [run]
-    exact run_dispatched_mono cfg ps _ evs (step_first_dispatched cfg ps r ok)
+    exact run_dispatched_mono cfg ps _ evs (step_first_dispatched cfg ps r ok rest more)
   rw [(C09_lifecycle_counts cfg ps _ 1 i hi).1, hd]; rfl
 
 /-- **C09 lifecycle, no plugin instances.**  A connection whose complete first
